@@ -59,7 +59,7 @@ class FilePart(Part):
         # salts are arbitrary strings: decomposed / singleton / compatibility characters, upper case, blanks
         odd = ["re\u0301seau-42", "\u212bngstro\u0308m \u2126", "\ufb01Salt\u00a0X", " MiXed Case "]
         for B in ([0, 1, 8, 32] if self.tier == "quick" else [0, 1, 2, 7, 8, 9, 16, 24, 31, 32]):
-            for nets in (None, ["10.1.0.0/16", "200.1.2.3/32"], "private"):
+            for nets in (None, ["10.1.0.0/16", "200.1.2.3/32"], "private", "listed+private", "private+listed"):
                 for pref in (None, ["10.0.0.0/8", "12.0.0.0/6"]):
                     for salt in salts + ([""] if self.tier == "quick" and not nets and not pref else []):
                         for nfiles in (1, 3):
@@ -114,6 +114,12 @@ class FilePart(Part):
             if cfg["networks"] == "private":
                 argv += ["--preserve-private-addresses"]
                 nets = ["10.0.0.0/8", "172.16.0.0/12", "192.168.0.0/16"]
+            elif cfg["networks"] == "listed+private":
+                argv += ["--preserve-addresses", "12.0.0.0/8,200.1.2.3/32", "--preserve-private-addresses"]
+                nets = ["12.0.0.0/8", "200.1.2.3/32", "10.0.0.0/8", "172.16.0.0/12", "192.168.0.0/16"]
+            elif cfg["networks"] == "private+listed":
+                argv += ["--preserve-private-addresses", "--preserve-addresses", "10.1.0.0/16,13.200.0.0/16"]
+                nets = ["10.1.0.0/16", "13.200.0.0/16", "10.0.0.0/8", "172.16.0.0/12", "192.168.0.0/16"]
             elif cfg["networks"]:
                 argv += ["--preserve-addresses", ",".join(cfg["networks"])]
                 nets = cfg["networks"]
